@@ -731,3 +731,78 @@ func TestPropOptions(t *testing.T) {
 	vk.Main(t, vk.Spec[optCase]{ID: "C20", Facet: "options", Quick: 30, Thorough: 200, Gen: genOpt, Check: checkOpt, CaseTimeout: 120 * time.Second,
 		Rule: "a fresh race-enabled helper process per case: one interactive session lists the options three times ('o', a pure read) and prints a report while 1..3 goroutines set option defaults through driver.SetVariableDefault (granularity=<choice>, <choice>=true, nodecount, focus) until the session ends, at GOMAXPROCS 2/4/16; oracle: no data race, the session succeeds, every listed value is one some caller set, the granularity choices are listed intact, the report is the profile's; every case is non-trivial (the first listing of a process is where shared option metadata would be touched, hence one process per case)"})
 }
+
+// ---- facet perf: several perf.data sources converted in parallel, each into a temporary file of its own ----
+
+type perfCase struct {
+	N     int
+	Delay []int // x10 ms before each conversion writes its output
+}
+
+func genPerf(t *rapid.T) *perfCase {
+	return &perfCase{N: rapid.IntRange(2, 6).Draw(t, "n"), Delay: rapid.SliceOfN(rapid.IntRange(0, 4), 6, 6).Draw(t, "delay")}
+}
+
+var perfOnce sync.Once
+var perfDir string
+
+// setupPerf installs a stand-in perf_to_profile on pprof's PATH. Like the real converter it refuses to write over
+// an existing file unless -f is given; the "perf.data" it reads is the magic, a delay, and the profile to emit.
+func setupPerf() {
+	toolOnce.Do(setupTools)
+	perfDir = scratch("perf")
+	os.Setenv("TMPDIR", perfDir)
+	script := "#!/bin/sh\nin=; out=; force=\nwhile [ $# -gt 0 ]; do case \"$1\" in -i) in=\"$2\"; shift;; -o) out=\"$2\"; shift;; -f) force=1;; esac; shift; done\n" +
+		"d=$(/usr/bin/head -c 10 \"$in\" | /usr/bin/tail -c 2)\n/usr/bin/sleep 0.$d\n" +
+		"if [ -z \"$force\" ] && [ -e \"$out\" ]; then echo \"File already exists: $out\" >&2; exit 1; fi\n" +
+		"/usr/bin/tail -c +11 \"$in\" > \"$out\"\n"
+	os.WriteFile(filepath.Join(os.Getenv("PATH"), "perf_to_profile"), []byte(script), 0o755)
+}
+
+func checkPerf(c *perfCase, o *vk.Obs) []string {
+	var e vk.Errs
+	perfOnce.Do(setupPerf)
+	var args []string
+	for i := 0; i < c.N; i++ {
+		f := &profile.Function{ID: 1, Name: fmt.Sprintf("fn%d", i), SystemName: fmt.Sprintf("fn%d", i)}
+		l := &profile.Location{ID: 1, Address: 0x10 + uint64(i), Line: []profile.Line{{Function: f, Line: 1}}}
+		p := &profile.Profile{SampleType: []*profile.ValueType{{Type: "samples", Unit: "count"}}, PeriodType: &profile.ValueType{Type: "cpu", Unit: "nanoseconds"}, Period: 1,
+			Function: []*profile.Function{f}, Location: []*profile.Location{l}, Sample: []*profile.Sample{{Location: []*profile.Location{l}, Value: []int64{int64(1000 + i)}}}}
+		var b bytes.Buffer
+		fmt.Fprintf(&b, "PERFILE2%02d", c.Delay[i%len(c.Delay)]*2+1)
+		p.Write(&b)
+		name := filepath.Join(perfDir, fmt.Sprintf("perf%d.data", i))
+		os.WriteFile(name, b.Bytes(), 0o644)
+		args = append(args, name)
+	}
+	res := pp.Run(pp.Req{Flags: map[string]string{"traces": "true", "output": "out", "symbolize": "none"}, Args: args, NoFetch: true})
+	if res.Panic != "" {
+		return []string{"pprof panicked: " + res.Panic}
+	}
+	if res.Err != nil {
+		e.Addf("%d perf.data sources: %v", c.N, res.Err)
+		return e
+	}
+	out := res.Out("out")
+	for i := 0; i < c.N; i++ {
+		if !strings.Contains(out, fmt.Sprintf("%d   fn%d", 1000+i, i)) {
+			e.Addf("perf.data source %d of %d (value %d) is missing from the merged report: its conversion shared a temporary file with another one?\n%.500s\nmessages: %q", i, c.N, 1000+i, out, res.UI.Errs)
+			break
+		}
+	}
+	if ents, err := os.ReadDir(perfDir); err == nil {
+		for _, en := range ents {
+			if strings.HasPrefix(en.Name(), "pprof_") {
+				e.Addf("temporary file %s is left behind after the run", en.Name())
+				os.Remove(filepath.Join(perfDir, en.Name()))
+			}
+		}
+	}
+	o.NonTrivial = true
+	return e
+}
+
+func TestPropPerf(t *testing.T) {
+	vk.Main(t, vk.Spec[perfCase]{ID: "C20", Facet: "perf", Quick: 40, Thorough: 250, Gen: genPerf, Check: checkPerf, CaseTimeout: 120 * time.Second,
+		Rule: "2..6 perf.data sources given to one pprof run, fetched and converted in parallel by a stand-in perf_to_profile (on pprof's PATH; like the real tool it refuses to overwrite an existing output unless forced, and takes 10..90 ms per drawn delay); oracle: every source is present in the merged report (each conversion got a temporary file of its own), no temporary file is left behind; under the race detector; every case is non-trivial"})
+}
